@@ -42,7 +42,8 @@ ASSUMPTIONS = ["'running' = the simulation task has started and no error/stop wa
 
 PHASES = ['built', 'task-created', 'sync-init', 'async-init', 'running', 'abort-called',
           'stopping-sync', 'stopping-async', 'finished', 'start-failed', 'reset']
-CAUSES = ['shutdown', 'abort-exc', 'handler-error', 'cancel-task']
+CAUSES = ['shutdown', 'abort-exc', 'handler-error', 'cancel-task', 'ctrl-shutdown', 'ctrl-abort',
+          'calc-error', 'task-error']
 DELIVER = {'sync-init', 'async-init', 'running'}
 
 MUT = [1, 2]
@@ -64,6 +65,8 @@ def configs(tier):
     for ph in PHASES:
         if ph in ('abort-called', 'stopping-sync', 'stopping-async', 'finished'):
             for cause in CAUSES:
+                if ph == 'abort-called' and cause in ('calc-error', 'task-error'):
+                    continue    # these reach the simulator later, not in the instant of the request
                 out.append(dict(kind='phase', phase=ph, cause=cause))
         else:
             out.append(dict(kind='phase', phase=ph, cause=None))
@@ -233,6 +236,19 @@ def run_phase(cfg, acc):
         if cause == 'handler-error':
             hook_cfg['event'] = ('raise', Fault('handler'))
         hook = lblock_class()('hook', log=log, cfg=hook_cfg)
+        ctl = edzed.OutputFunc('ctl', func=lambda value: value, on_error=None, on_success=(
+            edzed.Event.abort() if cause == 'ctrl-abort' else edzed.Event.shutdown()))
+        trig = edzed.Input('trig', initdef=0)
+
+        def calc(a):
+            if a == 'boom':
+                raise Fault('calc_output')
+            return a
+        edzed.FuncBlock('fb', func=calc).connect(trig)
+        boom_task = lblock_class(maintask=True)('mtask', log=log, cfg={
+            'init_regular': ('set', 0),
+            'maintask': (12.5, ('raise', Fault('task')))}, stop_timeout=20)
+        del boom_task
         slow = lblock_class(ainit=True, astop=True)(
             'slow', log=log, cfg={'ainit': (5, ('set', 1)), 'astop': (5, None)},
             init_timeout=20, stop_timeout=20)
@@ -250,6 +266,13 @@ def run_phase(cfg, acc):
                     pass
             elif cause == 'cancel-task':
                 task.cancel()
+            elif cause in ('ctrl-shutdown', 'ctrl-abort'):
+                edzed.ExtEvent(ctl).send(1)
+            elif cause == 'calc-error':
+                edzed.ExtEvent(trig).send('boom')
+                return asyncio.ensure_future(_after_idle(sim.loop, circuit))
+            elif cause == 'task-error':
+                return asyncio.ensure_future(_after_time(sim.loop, circuit, 12.5))
             return asyncio.ensure_future(stop(circuit)) if cause != 'cancel-task' else task
 
         async def driver():
@@ -311,6 +334,17 @@ def run_phase(cfg, acc):
     s0 = acc.state(('phase', phase, cause))
     acc.transition(s0, 'send-all', acc.state(('phase', phase, cause, 'done', len(viol) == 0)))
     return viol
+
+
+async def _after_idle(loop, circuit):
+    await loop.idle()
+    return await stop(circuit)
+
+
+async def _after_time(loop, circuit, t):
+    await loop.sleep_until_us(int(t * 1_000_000) + 1)
+    await loop.idle()
+    return await stop(circuit)
 
 
 # ------------------------------------------------------------------ name space
